@@ -227,5 +227,5 @@ def strat_lsq(tier):
 
 
 PARTS = [
-    Part("lsq", check_lsq, strat_lsq, quick=2500, thorough=60000, min_nontrivial_frac=0.4),
+    Part("lsq", check_lsq, strat_lsq, quick=2500, thorough=60000, min_nontrivial_frac=0.3),
 ]
